@@ -162,4 +162,3 @@ Proof.
   intros evs s E. apply (G evs init s); auto. split; simpl; auto. intros _ b H. discriminate.
 Qed.
 End Inv.
-Print Assumptions C01_partition.
